@@ -162,7 +162,7 @@ def nav_path(m: dict[int, dict[int, list[int] | None]], cur: int, target: int) -
 _PARSE_CACHE: dict[bytes, bool] = {}
 
 
-def parsable(pdu: bytes) -> bool:
+def codec_parsable(pdu: bytes) -> bool:
     """The request codec's own verdict (that codec is C01's subject)."""
     r = _PARSE_CACHE.get(pdu)
     if r is None:
@@ -170,6 +170,35 @@ def parsable(pdu: bytes) -> bool:
         if len(_PARSE_CACHE) < 400000:
             _PARSE_CACHE[pdu] = r
     return r
+
+
+def iso_wellformed(pdu: bytes) -> bool | None:
+    """ISO 14229-1 message length rules for services whose request length does not depend on data the ECU defines
+    (independent of gallia's codec); None = no opinion."""
+    n = len(pdu)
+    s = pdu[0]
+    if s in (0x10, 0x11, 0x3E):
+        return n == 2
+    if s == 0x14:
+        return n == 4
+    if s == 0x22:
+        return n >= 3 and n % 2 == 1
+    if s == 0x2E:
+        return n >= 4
+    if s == 0x31:
+        return n >= 4
+    if s == 0x2C and n >= 2 and (pdu[1] & 0x7F) == 3:
+        return n in (2, 4)
+    return None
+
+
+def parsable(pdu: bytes) -> bool:
+    """Is the request well-formed?  Where ISO 14229-1 fixes the length the rule itself decides; otherwise the
+    request codec's own verdict (that codec is C01's subject)."""
+    iso = iso_wellformed(pdu)
+    if iso is False:
+        return False
+    return codec_parsable(pdu)
 
 
 _UNSET = object()
